@@ -208,7 +208,8 @@ def replay(task):
             if step["req"] == "close" and step["resp"] == "ok" and sc == "none":
                 sc = "ok"             # the loop may stop before the response is delivered
             prefix_desc = {"mode": mode, "requests": reqs[:j + 1]}
-            if sc != step["resp"]:
+            alt = step.get("alt") if isinstance(step.get("alt"), list) else []
+            if sc != step["resp"] and sc not in alt:
                 problems.append(("status:%s:%s:expected-%s-got-%s" % (mode, step["req"], step["resp"], sc),
                                  "request %s answered %s (HTTP %s), the model says %s" % (step["req"], sc, obs["status"], step["resp"]),
                                  prefix_desc))
@@ -226,7 +227,7 @@ def replay(task):
                 problems.append(("running:%s:%s" % (mode, step["req"]), "server %s after %s but the model says running=%s"
                                  % ("stopped" if obs["stopped"] else "still runs", step["req"], step["running"]), prefix_desc))
                 break
-            if sc == "ok" and step["req"].startswith(("diff_", "merge_")):
+            if sc == "ok" and step["resp"] == "ok" and step["req"].startswith(("diff_", "merge_")):
                 answers.append((mode, step["req"], json.dumps(step["disk"], sort_keys=True) if j else "disk0",
                                 hashlib.sha1(obs["body"]).hexdigest(), j, reqs[:j + 1]))
                 if j == 0 or True:
